@@ -87,10 +87,9 @@ func c03BuildStream(maxSegs int, allowTruncatedTail bool) (stream []byte, want [
 	}
 	// the truncated tail: after at most two full segments (quick) so that
 	// every truncation point of every listed length is covered
+	// (in both tiers: with three full segments of the thorough lengths before
+	// the tail the shapes exceed a million)
 	tailAfter := 2
-	if verifTier() > 0 {
-		tailAfter = 3
-	}
 	if allowTruncatedTail && nseg <= tailAfter && verifParam("tail", 0, 1) == 1 {
 		l := ls[verifParam("tail.len", 0, len(ls)-1)]
 		f := c03Frame("tail", l)
